@@ -1,8 +1,9 @@
 """C14 -- degree-of-freedom bookkeeping is a lossless partition (proof by construction, checked structurally).
 
 The statement follows from these facts, each decided on the source of FunctionSpace.DofManager and
-SparseMatrixAssembler by a mask-provenance abstract interpretation (values: the constrained mask M, its
-complement ~M, the id table, selections of the id table by a mask, the dof->unknown map):
+SparseMatrixAssembler by a symbolic interpretation over arrays of symbolic shape (rules/dofalg.py: every attribute and
+every method result is a closed term of an index-set algebra in normal form; the rule compares it with the term the property
+demands, so renamed locals, temporaries, extracted helpers, keyword arguments and equivalent NumPy idioms do not matter):
 
   O1  isUnknown is the complement of isBc and both have the field shape; isBc is only set True at
       (node set, component) pairs of the given essential boundary conditions;
@@ -20,17 +21,16 @@ from __future__ import annotations
 
 import ast
 
-from optilint.cfg import cfg_of
-from optilint.model import dotted, walk_local
 from optilint.core import Incomplete
-from .common import src, expand, same, canon, calls_in, single_def, def_value, const_value
+from . import dofalg as da
+from .dofalg import P, atom, Tup, const, not_, sel, gather, index, rows, elem, ravel, scatter, mscat, rowsrep, transpose, outer_and, count, size, show
 
 LEVEL = "other"
 RULE_TEXT = "obligations = (DofManager statement role x required mask provenance); distinct = distinct (rule, method, construct)"
-EXPLANATION = ("Mask-provenance analysis of FunctionSpace.DofManager and SparseMatrixAssembler.assemble_sparse_stiffness_matrix: each "
-               "attribute and method is checked to use the constrained mask, its complement, the id table and the dof->unknown map "
-               "in the roles from which the partition / round-trip / slicing / assembly statements follow. NumPy indexing semantics "
-               "are trusted, not mechanised.")
+EXPLANATION = ("Symbolic interpretation (index-set algebra over arrays of symbolic shape, rules/dofalg.py) of FunctionSpace.DofManager and "
+               "SparseMatrixAssembler.assemble_sparse_stiffness_matrix: the constructor is interpreted for a symbolic mesh, field count and "
+               "BC list; every attribute and every method result is reduced to a normal-form term and compared with the term from which the "
+               "partition / round-trip / slicing / assembly statements follow. NumPy indexing semantics are modelled, not mechanised.")
 
 FS = "optimism.FunctionSpace"
 SA = "optimism.SparseMatrixAssembler"
@@ -41,371 +41,261 @@ def run(ctx):
     ctx.need_module(SA)
     cls = ctx.need(f"{FS}:DofManager")
     init = ctx.need(f"{FS}:DofManager.__init__")
-    ctx.guard(o1_o3, ctx, init)
-    ctx.guard(o4_o5, ctx, cls)
-    ctx.guard(o6, ctx, cls, init)
+    st = ctx.guard(build, ctx, cls, init)
+    if st is None:
+        raise Incomplete("DofManager.__init__ could not be interpreted")
+    ctx.guard(o1_o3, ctx, st)
+    ctx.guard(o4_o5, ctx, st)
+    ctx.guard(o6, ctx, st)
+    for sc in st.I.visited:
+        ctx.touch(sc)
     ctx.trust("numpy boolean-mask indexing enumerates True entries in row-major order; a[mask] = v and a.at[mask].set(v) scatter in the same order")
     ctx.assume("element stiffness blocks are symmetric (row/column roles of the COO coordinates may be exchanged)")
+    ctx.assume("the assembler is called with the connectivity of the dof manager's mesh and element matrices of shape (nEl, nNodesPerEl, dim, nNodesPerEl, dim)")
 
 
-def _self_assigns(scope):
-    """attribute -> list of (stmt, value) for `self.attr = value` and `self.a, self.b = value`"""
-    out = {}
-    selfn = scope.params()[0]
-    for st in walk_local(scope.node):
-        if isinstance(st, ast.Assign):
-            for t in st.targets:
-                if isinstance(t, ast.Attribute) and isinstance(t.value, ast.Name) and t.value.id == selfn:
-                    out.setdefault(t.attr, []).append((st, st.value, None))
-                elif isinstance(t, ast.Tuple):
-                    for i, e in enumerate(t.elts):
-                        if isinstance(e, ast.Attribute) and isinstance(e.value, ast.Name) and e.value.id == selfn:
-                            out.setdefault(e.attr, []).append((st, st.value, i))
-    return out
+class State:
+    pass
 
 
-def _is_complement(e, of):
-    s = canon(e)
-    return s in (f"(~{of})".replace("(~", "~").replace(")", ""), ) or src(e) in (f"~{of}", f"onp.logical_not({of})", f"np.logical_not({of})",
-                                                                                   f"onp.invert({of})", f"np.invert({of})", f"{of} == False")
+def build(ctx, cls, init):
+    """Interpret the constructor on a symbolic function space, field count and BC list; set up the terms the property speaks about."""
+    st = State()
+    st.cls, st.init = cls, init
+    I = st.I = da.Interp(ctx.repo, ctx)
+    da.HINTS.clear()
+    params = init.params()
+    if len(params) != 4:
+        raise Incomplete(f"DofManager.__init__ takes {params}; (self, functionSpace, dim, EssentialBCs) expected")
+    fs = ("param", "functionSpace")
+    ebcs = ("param", "EssentialBCs")
+    D = atom("D")
+    st.conns = ("attr", ("attr", fs, "mesh"), "conns")
+    da.HINTS[st.conns] = (2, "int")
+    coords = ("attr", ("attr", fs, "mesh"), "coords")
+    da.HINTS[coords] = (2, "float")
+    obj = st.obj = da.Obj(cls)
+    paths = None
+    try:
+        env = {params[0]: da.Cell(obj), params[1]: da.Cell(fs), params[2]: da.Cell(D), params[3]: da.Cell(ebcs)}
+        I.visited.append(init)
+        paths = I.block(init.body(), env, init)
+    except da.Unsupported as ex:
+        ctx.undecided("O1-O3/T5-masks-ids-map", init, None, construct="constructor", detail=f"cannot interpret the constructor: {ex}")
+        return None
+    if len(paths) != 1:
+        ctx.undecided("O1-O3/T5-masks-ids-map", init, None, construct="constructor", detail="the constructor branches on a symbolic condition")
+        return None
+    st.obj = obj = paths[0][3][params[0]].v
+    # the vocabulary of the property
+    st.Nn = da.ShapeOf(coords).dim(0)
+    st.D = D
+    st.F = (st.Nn, D)
+    k = atom("k0")
+    b = elem(ebcs, k)
+    node_sets = ("attr", ("attr", fs, "mesh"), "nodeSets")
+    st.M = ("forstores", const(False, st.F), ("range", da.length(ebcs)), ((Tup((index(node_sets, ("attr", b, "nodeSet")), ("attr", b, "component"))), True),))
+    st.U = not_(st.M)
+    st.ids = ("iota", st.F)
+    st.N = st.Nn * D
+    st.nU = count(st.U)
+    st.map = scatter(const(-1, (st.N,)), sel(st.ids, st.U), ("iota", (st.nU,)))
+    del ABBREV[:]
+    ABBREV.extend(sorted([(show(st.map), "MAP"), (show(st.M), "BC"), (show(st.ids), "IDS"), (show(st.conns), "conns"), (f"count[{show(st.M)}]", "nBC"),
+                          (show(da.ShapeOf(coords).dim(0)), "nNodes"), (show(da.ShapeOf(st.conns).dim(0)), "nEl"), (show(da.ShapeOf(st.conns).dim(1)), "nNodesPerEl")],
+                         key=lambda p_: -len(p_[0])))
+    return st
 
 
-def o1_o3(ctx, init):
+ABBREV = []
+
+
+def pretty(t, n=420):
+    """term with the property's vocabulary folded back in (BC = constrained mask, IDS = id table, MAP = dof->unknown map)"""
+    s_ = show(t)
+    for long_, short in ABBREV:
+        s_ = s_.replace(long_, short)
+    return s_ if len(s_) <= n else s_[:n] + " ..."
+
+
+def _get(st, attr):
+    c = st.obj.attrs.get(attr)
+    return c.v if c is not None else None
+
+
+def _compare(ctx, rule, scope, construct, got, want, ok_detail, what):
+    if got is None:
+        ctx.refuted(rule, scope, None, construct=construct, detail=f"{what}: not defined")
+        return False
+    if got == want:
+        ctx.proved(rule, scope, None, construct=construct, detail=ok_detail)
+        return True
+    if da.has_unknown(got):
+        why = "; ".join(sorted(set(da.unknown_reasons(got)))[:3])
+        ctx.undecided(rule, scope, None, construct=construct, detail=f"{what}: value not fully modelled ({why})")
+        return False
+    ctx.refuted(rule, scope, None, construct=construct,
+                detail=f"{what} is `{pretty(got)}`; the property needs `{pretty(want)}` "
+                       f"(BC: mask of the declared (node set, component) pairs, IDS: id table, MAP: dof->unknown map, k0: element index)")
+    return False
+
+
+def o1_o3(ctx, st):
     rule = "O1-O3/T5-masks-ids-map"
-    cfg = cfg_of(init)
-    A = _self_assigns(init)
-    s = init.params()[0]
-
-    def one(attr):
-        lst = A.get(attr, [])
-        if len(lst) != 1:
-            ctx.refuted(rule, init, lst[0][0] if lst else None, construct=f"{attr}:defined-once",
-                        detail=f"self.{attr} is assigned {len(lst)} times in the constructor (exactly one definition is required)")
-            return None
-        return lst[0]
-    # isBc: local boolean array of field shape, all False, set True only at ebc entries
-    d = one("isBc")
-    if d:
-        st, v, _ = d
-        node = cfg.node_for(st)
-        ve = v
-        local = v.id if isinstance(v, ast.Name) else None
-        ok_init = False
-        ok_sets = True
-        n_sets = 0
-        if local:
-            defs = [n for n in cfg.nodes if n.kind == "stmt" and isinstance(n.ast, ast.Assign) and any(isinstance(t, ast.Name) and t.id == local for t in n.ast.targets)]
-            ok_init = len(defs) == 1 and same(defs[0].ast.value, f"onp.full({s}.fieldShape, False, dtype=bool)")
-            for n in cfg.nodes:
-                if n.kind == "stmt" and isinstance(n.ast, ast.Assign) and isinstance(n.ast.targets[0], ast.Subscript) \
-                        and isinstance(n.ast.targets[0].value, ast.Name) and n.ast.targets[0].value.id == local:
-                    n_sets += 1
-                    idx = n.ast.targets[0].slice
-                    good = isinstance(idx, ast.Tuple) and len(idx.elts) == 2 and "nodeSets" in src(idx.elts[0]) and src(idx.elts[1]).endswith(".component") \
-                        and isinstance(n.ast.value, ast.Constant) and n.ast.value.value is True and bool(n.loops)
-                    # same loop variable in both index parts
-                    if good:
-                        v0 = src(idx.elts[0])
-                        lv = src(idx.elts[1]).split(".")[0]
-                        good = f"{lv}.nodeSet" in v0
-                    ok_sets = ok_sets and good
-        ctx.decide(rule, ok_init, init, st, construct="isBc:starts-all-False-in-field-shape", detail="isBc = full(fieldShape, False)",
-                   bad_detail="the constrained mask does not start as an all-False boolean array of the field shape")
-        ctx.decide(rule, ok_sets and n_sets == 1, init, st, construct="isBc:set-only-at-essential-bcs",
-                   detail="isBc[nodeSets[ebc.nodeSet], ebc.component] = True for each essential BC",
-                   bad_detail="the constrained mask is not set True exactly at (node set of the BC, component of the same BC) pairs")
-    d = one("isUnknown")
-    if d:
-        st, v, _ = d
-        ok = _is_complement(v, f"{s}.isBc")
-        ctx.decide(rule, ok, init, st, construct="isUnknown:complement-of-isBc", detail=src(st),
-                   bad_detail=f"`{src(st)}`: the unknown mask must be the complement of the constrained mask (otherwise dofs are lost or counted twice)")
-    d = one("fieldShape")
-    if d:
-        st, v, _ = d
-        ok = isinstance(v, ast.Tuple) and len(v.elts) == 2 and "num_nodes" in src(v.elts[0]) and src(v.elts[1]) == init.params()[2]
-        ctx.decide(rule, ok, init, st, construct="fieldShape:(nodes, dim)", detail=src(st), bad_detail=f"`{src(st)}` is not (number of nodes, fields per node)")
-    d = one("ids")
-    if d:
-        st, v, _ = d
-        ok = same(v, f"onp.arange({s}.isBc.size).reshape({s}.fieldShape)")
-        ctx.decide(rule, ok, init, st, construct="ids:enumerates-all-dofs-in-field-shape", detail=src(st),
-                   bad_detail=f"`{src(st)}`: the id table must be arange(number of dofs) in field shape")
-    for attr, mask in (("unknownIndices", "isUnknown"), ("bcIndices", "isBc")):
-        d = one(attr)
-        if d:
-            st, v, _ = d
-            ok = same(v, f"{s}.ids[{s}.{mask}]")
-            ctx.decide(rule, ok, init, st, construct=f"{attr}:ids-selected-by-{mask}", detail=src(st),
-                       bad_detail=f"`{src(st)}`: {attr} must be the ids selected by {mask}")
-    d = one("dofToUnknown")
-    if d:
-        st, v, _ = d
-        node = cfg.node_for(st)
-        local = v.id if isinstance(v, ast.Name) else None
-        ok_default = ok_fill = False
-        n_fill = 0
-        if local and node:
-            # default: every definition chain ends in ones(size)*-1 / full(size, -1)
-            # follow plain name copies back to the array creation (in-place subscript stores do not redefine the name)
-            cur = local
-            e = v
-            for _ in range(4):
-                strong = [n for n in cfg.nodes if n.kind == "stmt" and isinstance(n.ast, ast.Assign)
-                          and any(isinstance(t, ast.Name) and t.id == cur for t in n.ast.targets)]
-                if len(strong) != 1:
-                    break
-                e = strong[0].ast.value
-                if isinstance(e, ast.Name):
-                    cur = e.id
-                    continue
-                break
-            ok_default = same(e, f"onp.ones({s}.isBc.size, dtype=int) * -1") or same(e, f"-onp.ones({s}.isBc.size, dtype=int)") or \
-                same(e, f"onp.full({s}.isBc.size, -1, dtype=int)") or same(e, f"onp.full({s}.isBc.size, -1)")
-            aliases = {local}
-            for n in cfg.nodes:
-                if n.kind == "stmt" and isinstance(n.ast, ast.Assign) and isinstance(n.ast.targets[0], ast.Name) and isinstance(n.ast.value, ast.Name) \
-                        and n.ast.targets[0].id == local:
-                    aliases.add(n.ast.value.id)
-            for n in cfg.nodes:
-                if n.kind == "stmt" and isinstance(n.ast, ast.Assign) and isinstance(n.ast.targets[0], ast.Subscript) \
-                        and isinstance(n.ast.targets[0].value, ast.Name) and n.ast.targets[0].value.id in aliases:
-                    n_fill += 1
-                    ok_fill = same(n.ast.targets[0].slice, f"{s}.unknownIndices") and same(n.ast.value, f"onp.arange({s}.unknownIndices.size)")
-        ctx.decide(rule, ok_default, init, st, construct="dofToUnknown:default-minus-one", detail="-1 for every dof before filling",
-                   bad_detail="the dof->unknown map does not start as -1 for every dof (constrained dofs would alias a real unknown)")
-        ctx.decide(rule, ok_fill and n_fill == 1, init, st, construct="dofToUnknown:arange-at-unknownIndices",
-                   detail="map[unknownIndices] = arange(number of unknowns)",
-                   bad_detail="the dof->unknown map is not filled with arange(number of unknowns) exactly at unknownIndices")
+    init = st.init
+    C = lambda construct, got, want, okd, what: _compare(ctx, rule, init, construct, got, want, okd, what)
+    C("fieldShape:(nodes, dim)", _get(st, "fieldShape"), Tup(st.F), "fieldShape = (number of mesh nodes, fields per node)", "self.fieldShape")
+    C("isBc:set-only-at-essential-bcs", _get(st, "isBc"), st.M,
+      "isBc is all-False of field shape, then True exactly at (nodeSets[bc.nodeSet], bc.component) for every essential BC", "the constrained mask self.isBc")
+    C("isUnknown:complement-of-isBc", _get(st, "isUnknown"), st.U, "isUnknown = ~isBc", "the unknown mask self.isUnknown (it must be the complement of the constrained mask, otherwise dofs are lost or counted twice)")
+    C("ids:enumerates-all-dofs-in-field-shape", _get(st, "ids"), st.ids, "ids = arange(number of dofs) in field shape", "the id table self.ids")
+    C("unknownIndices:ids-selected-by-isUnknown", _get(st, "unknownIndices"), sel(st.ids, st.U), "unknownIndices = ids[isUnknown]", "self.unknownIndices")
+    C("bcIndices:ids-selected-by-isBc", _get(st, "bcIndices"), sel(st.ids, st.M), "bcIndices = ids[isBc]", "self.bcIndices")
+    C("dofToUnknown:minus-one-then-arange-at-unknownIndices", _get(st, "dofToUnknown"), st.map,
+      "dofToUnknown = -1 for every dof, then arange(number of unknowns) at unknownIndices",
+      "the dof->unknown map self.dofToUnknown (constrained dofs must map to -1, unknown dofs to 0..nUnknowns-1 in id order)")
 
 
-def o4_o5(ctx, cls):
+def _method(st, name):
+    for c in st.cls.children:
+        if c.kind == "function" and c.name == name:
+            return c
+    raise Incomplete(f"DofManager.{name} not found")
+
+
+def _call(ctx, st, rule, name, args, construct):
+    m = _method(st, name)
+    try:
+        return m, st.I.call_scope(m, args, {}, bound=st.obj)
+    except da.Unsupported as ex:
+        ctx.undecided(rule, m, None, construct=construct, detail=f"cannot interpret {name}: {ex}")
+        return m, None
+    except RecursionError:
+        ctx.undecided(rule, m, None, construct=construct, detail=f"cannot interpret {name}: recursion")
+        return m, None
+
+
+def o4_o5(ctx, st):
     rule = "O4-O5/T5-scatter-gather-slice"
-    m = {c.name: c for c in cls.children if c.kind == "function"}
-    def need(name):
-        if name not in m:
-            raise Incomplete(f"DofManager.{name} not found")
-        ctx.touch(m[name])
-        return m[name]
-    cf = need("create_field")
-    s = cf.params()[0]
-    uu, ubc = cf.params()[1], cf.params()[2]
-    cfgc = cfg_of(cf)
-    r = cfgc.returns()
-    e = expand(cfgc, r[0], r[0].ast.value) if r else None
-    want1 = f"np.zeros({s}.isBc.shape).at[{s}.isBc].set({ubc}).at[{s}.isUnknown].set({uu})"
-    want2 = f"np.zeros({s}.isBc.shape).at[{s}.isUnknown].set({uu}).at[{s}.isBc].set({ubc})"
-    ok = e is not None and (same(e, want1) or same(e, want2))
-    ctx.decide(rule, ok, cf, r[0].ast if r else None, construct="create_field:scatter-with-both-masks",
-               detail="zeros(mask shape).at[isBc].set(Ubc).at[isUnknown].set(Uu)",
-               bad_detail=f"create_field builds `{src(e)}`; it must scatter the boundary values with isBc and the unknowns with isUnknown onto zeros of the mask shape")
-    for name, mask in (("get_bc_values", "isBc"), ("get_unknown_values", "isUnknown")):
-        g = need(name)
-        rr = g.returns()
-        ok = len(rr) == 1 and same(rr[0], f"{g.params()[1]}[{g.params()[0]}.{mask}]")
-        ctx.decide(rule, ok, g, rr[0] if rr else None, construct=f"{name}:gathers-with-{mask}", detail=src(rr[0]) if rr else "",
-                   bad_detail=f"{name} returns `{src(rr[0]) if rr else '?'}`; it must gather with {mask} (the mask create_field scatters with)")
-    for name, mask in (("get_bc_size", "isBc"), ("get_unknown_size", "isUnknown")):
-        g = need(name)
-        rr = g.returns()
-        ok = len(rr) == 1 and (same(rr[0], f"np.sum({g.params()[0]}.{mask}).item()") or same(rr[0], f"int(np.sum({g.params()[0]}.{mask}))")
-                               or same(rr[0], f"onp.sum({g.params()[0]}.{mask}).item()") or same(rr[0], f"np.sum({g.params()[0]}.{mask})"))
-        ctx.decide(rule, ok, g, rr[0] if rr else None, construct=f"{name}:counts-{mask}", detail=src(rr[0]) if rr else "",
-                   bad_detail=f"{name} returns `{src(rr[0]) if rr else '?'}`; it must count the True entries of {mask}")
-    sl = need("slice_unknowns_with_dof_indices")
-    s = sl.params()[0]
-    uu, ds = sl.params()[1], sl.params()[2]
-    cfgs = cfg_of(sl)
-    r = cfgs.returns()
-    e = expand(cfgs, r[0], r[0].ast.value) if r else None
-    want = f"{uu}[{s}.dofToUnknown.reshape({s}.fieldShape)[{ds}][{s}.isUnknown[{ds}]]]"
-    ok = e is not None and same(e, want)
-    ctx.decide(rule, ok, sl, r[0].ast if r else None, construct="slice:map-and-mask-on-same-slice",
-               detail="Uu[ map.reshape(fieldShape)[slice][ isUnknown[slice] ] ]",
-               bad_detail=f"slice_unknowns_with_dof_indices returns `{src(e)}`; expected the dof->unknown map and the unknown mask restricted by the same slice")
+    Uu, Ubc, U, s = ("param", "Uu"), ("param", "Ubc"), ("param", "U"), ("param", "dofIndexSlice")
+    da.HINTS[U] = (st.F, "float")           # a field has the field shape
+    da.HINTS[Uu] = ((st.nU,), "float")      # the unknown vector has one entry per unknown
+    m, got = _call(ctx, st, rule, "create_field", [Uu, Ubc], "create_field:scatter-with-both-masks")
+    if got is not None:
+        _compare(ctx, rule, m, "create_field:scatter-with-both-masks", got, mscat(mscat(const(0, st.F), st.M, Ubc), st.U, Uu),
+                 "zeros(field shape) with Ubc scattered at isBc and Uu at isUnknown", "the field built by create_field(Uu, Ubc)")
+    for name, mask, mname in (("get_bc_values", st.M, "isBc"), ("get_unknown_values", st.U, "isUnknown")):
+        m, got = _call(ctx, st, rule, name, [U], f"{name}:gathers-with-{mname}")
+        if got is not None:
+            _compare(ctx, rule, m, f"{name}:gathers-with-{mname}", got, sel(U, mask), f"U[{mname}]", f"the result of {name}(U) (it must gather with {mname}, the mask create_field scatters with)")
+    for name, mask, mname in (("get_bc_size", st.M, "isBc"), ("get_unknown_size", st.U, "isUnknown")):
+        m, got = _call(ctx, st, rule, name, [], f"{name}:counts-{mname}")
+        if got is not None:
+            _compare(ctx, rule, m, f"{name}:counts-{mname}", got, count(mask), f"number of True entries of {mname}", f"the size reported by {name}()")
+    m, got = _call(ctx, st, rule, "slice_unknowns_with_dof_indices", [Uu, s], "slice:map-and-mask-on-same-slice")
+    if got is not None:
+        j = gather(st.map, index(st.ids, s))
+        want = sel(gather(Uu, j), not_(index(st.M, s)))
+        _compare(ctx, rule, m, "slice:map-and-mask-on-same-slice", got, want, "Uu[ map[ids[slice]] [ isUnknown[slice] ] ]",
+                 "the result of slice_unknowns_with_dof_indices(Uu, slice) (the dof->unknown map and the unknown mask must be restricted by the same slice)")
 
 
-def o6(ctx, cls, init):
+def o6(ctx, st):
     rule = "O6/T6-hessian-coordinates-and-mask"
-    m = {c.name: c for c in cls.children if c.kind == "function"}
-    hc, hm = m.get("_make_hessian_coordinates"), m.get("_make_hessian_bc_mask")
-    if hc is None or hm is None:
-        raise Incomplete("Hessian coordinate/mask builders not found")
-    ctx.touch(hc)
-    ctx.touch(hm)
-    # both are fed the same connectivity in __init__
-    s = init.params()[0]
-    calls = {}
-    for c in calls_in(init):
-        if isinstance(c.func, ast.Attribute) and c.func.attr in ("_make_hessian_coordinates", "_make_hessian_bc_mask"):
-            calls[c.func.attr] = c
-    if len(calls) != 2:
-        ctx.refuted(rule, init, None, construct="both-builders-called", detail="the constructor does not build both the Hessian coordinates and the Hessian mask")
+    init = st.init
+    k = atom("k0")
+    it = ("range", da.length(st.conns))
+    nodes = elem(st.conns, k)
+    uflag2 = not_(rows(st.M, nodes))                 # unknown flags of the element's dofs, (nodes per element, D)
+    uflag = ravel(uflag2)
+    n = count(uflag2)
+    u = sel(gather(st.map, rows(st.ids, nodes)), uflag2)          # unknown numbers of the element's unconstrained dofs, row-major
+    total = da.sum_over(it, n * n, "k0")
+    tile = rowsrep(u, n)
+    want_a = ("cat", it, ravel(tile), total)
+    want_b = ("cat", it, ravel(transpose(tile)), total)
+    r, c = _get(st, "HessRowCoords"), _get(st, "HessColCoords")
+    if r is None or c is None:
+        ctx.refuted(rule, init, None, construct="coords:defined", detail="HessRowCoords / HessColCoords are not set by the constructor")
+    elif (r, c) in ((want_a, want_b), (want_b, want_a)):
+        ctx.proved(rule, init, None, construct="coords:tile-and-transpose-of-element-unknowns",
+                   detail="per element: the n unknown numbers map[ids[eNodes,:][isUnknown[eNodes,:]]] tiled n times, and the transpose, concatenated over the elements (n*n entries each)")
+    elif da.has_unknown(r) or da.has_unknown(c):
+        why = "; ".join(sorted(set(da.unknown_reasons(r) + da.unknown_reasons(c)))[:3])
+        ctx.undecided(rule, init, None, construct="coords:tile-and-transpose-of-element-unknowns", detail=f"Hessian coordinates not fully modelled ({why})")
     else:
-        a, b = src(calls["_make_hessian_coordinates"].args[0]), src(calls["_make_hessian_bc_mask"].args[0])
-        strip = lambda t: t.replace("onp.array(", "").replace("np.array(", "").rstrip(")") if t.startswith(("onp.array(", "np.array(")) else t
-        ok = strip(a) == strip(b) and strip(a).endswith("mesh.conns")
-        ctx.decide(rule, ok, init, calls["_make_hessian_bc_mask"], construct="same-connectivity",
-                   detail=f"coordinates from {a}, mask from {b}", bad_detail=f"Hessian coordinates are built from `{a}` but the mask from `{b}`")
-    A = _self_assigns(init)
-    for attr, idx in (("HessRowCoords", 0), ("HessColCoords", 1)):
-        lst = A.get(attr, [])
-        ok = len(lst) == 1 and lst[0][2] == idx and "_make_hessian_coordinates" in src(lst[0][1])
-        ctx.decide(rule, ok, init, lst[0][0] if lst else None, construct=f"{attr}:result-{idx}", detail=f"self.{attr} = result[{idx}] of _make_hessian_coordinates",
-                   bad_detail=f"self.{attr} is not result {idx} of _make_hessian_coordinates")
-    lst = A.get("hessian_bc_mask", [])
-    ctx.decide(rule, len(lst) == 1 and "_make_hessian_bc_mask" in src(lst[0][1]), init, lst[0][0] if lst else None,
-               construct="hessian_bc_mask:result", detail="self.hessian_bc_mask = _make_hessian_bc_mask(conns)", bad_detail="self.hessian_bc_mask is not the result of _make_hessian_bc_mask")
-    # mask builder: True everywhere, then rows and columns flagged by isBc of the element's nodes set False
-    sm = hm.params()[0]
-    conn = hm.params()[1]
-    cfgm = cfg_of(hm)
-    stores = [n for n in cfgm.nodes if n.kind == "stmt" and isinstance(n.ast, ast.Assign) and isinstance(n.ast.targets[0], ast.Subscript) and n.loops]
-    loopvars = None
-    for n in cfgm.nodes:
-        if n.kind == "for" and isinstance(n.ast.target, ast.Tuple) and len(n.ast.target.elts) == 2:
-            loopvars = (n.ast.target.elts[0].id, n.ast.target.elts[1].id, src(n.ast.iter))
-    if loopvars is None or len(stores) == 0:
-        ctx.undecided(rule, hm, None, construct="mask:stores", detail=f"{len(stores)} stores in the element loop")
-    else:
-        e_, nodes_, it = loopvars
-        ctx.decide(rule, it == f"enumerate({conn})", hm, None, construct="mask:iterates-given-connectivity", detail=it,
-                   bad_detail=f"mask builder iterates `{it}`, not the connectivity it was given")
-        forms = set()
-        for n in stores:
-            t = n.ast.targets[0]
-            idx = [src(expand(cfgm, n, x)) if not isinstance(x, ast.Slice) else ":" for x in (t.slice.elts if isinstance(t.slice, ast.Tuple) else [t.slice])]
-            forms.add(tuple(idx))
-            okv = isinstance(n.ast.value, ast.Constant) and n.ast.value.value is False
-            ctx.decide(rule, okv, hm, n.ast, construct=f"mask:store-False:{src(t)[:40]}", detail=src(n.ast), bad_detail=f"`{src(n.ast)}` does not clear mask entries")
-        flag = f"{sm}.isBc[{nodes_}, :].ravel()"
-        want = {(e_, flag, ":"), (e_, ":", flag)}
-        # every element is processed: no store is guarded by a condition and the loop has no continue/break
-        guarded = [n for n in stores if any(c.kind == "cond" and c.loops for (c, l) in cfgm.edge_facts(n))]
-        jumps = [n for n in cfgm.nodes if n.kind == "stmt" and isinstance(n.ast, (ast.Continue, ast.Break)) and n.loops]
-        ctx.decide(rule, not guarded and not jumps, hm, (guarded or jumps or stores)[0].ast, construct="mask:every-element-processed",
-                   detail="mask stores are unconditional inside the element loop",
-                   bad_detail="the Hessian mask is not updated for every element (a store is conditional or the loop skips elements): "
-                              "mask and coordinates would disagree for the skipped elements")
-        verdict = True if forms == want else (False if forms < want or all(len(f) == 3 for f in forms) else None)
-        ctx.decide(rule, verdict, hm, stores[0].ast, construct="mask:rows-and-columns-of-constrained-dofs",
-                   detail="mask[e, isBc(e), :] = mask[e, :, isBc(e)] = False",
-                   bad_detail=f"mask builder clears {sorted(forms)}; expected rows and columns flagged by isBc of the element's own nodes: {sorted(want)}")
-        # initial value True with shape (nElements, nDofPerElement, nDofPerElement)
-        mname = stores[0].ast.targets[0].value.id if isinstance(stores[0].ast.targets[0].value, ast.Name) else None
-        dd = [n for n in cfgm.nodes if n.kind == "stmt" and isinstance(n.ast, ast.Assign) and isinstance(n.ast.targets[0], ast.Name) and n.ast.targets[0].id == mname]
-        ok = len(dd) == 1 and isinstance(dd[0].ast.value, ast.Call) and (dotted(dd[0].ast.value.func) or "").endswith("full") and \
-            len(dd[0].ast.value.args) >= 2 and isinstance(dd[0].ast.value.args[1], ast.Constant) and dd[0].ast.value.args[1].value is True
-        if ok:
-            shp = dd[0].ast.value.args[0]
-            ok = isinstance(shp, ast.Tuple) and len(shp.elts) == 3 and same(shp.elts[1], shp.elts[2])
-            if ok:
-                # first entry: number of elements (conns.shape[0], possibly via `nEl, nNodes = conns.shape`)
-                def from_shape(e_, k):
-                    if same(e_, f"{conn}.shape[{k}]"):
-                        return True
-                    if isinstance(e_, ast.Name):
-                        for n2 in cfgm.nodes:
-                            if n2.kind == "stmt" and isinstance(n2.ast, ast.Assign) and isinstance(n2.ast.targets[0], ast.Tuple) \
-                                    and same(n2.ast.value, f"{conn}.shape"):
-                                names = [t.id if isinstance(t, ast.Name) else None for t in n2.ast.targets[0].elts]
-                                return k < len(names) and names[k] == e_.id
-                    return False
-                ok = from_shape(shp.elts[0], 0)
-                dpe = expand(cfgm, dd[0], shp.elts[1])
-                fac = [dpe.left, dpe.right] if isinstance(dpe, ast.BinOp) and isinstance(dpe.op, ast.Mult) else []
-                ok = ok and len(fac) == 2 and any(from_shape(f_, 1) for f_ in fac) and any(same(f_, f"{sm}.ids.shape[1]") for f_ in fac)
-        ctx.decide(rule, ok, hm, dd[0].ast if dd else None, construct="mask:starts-all-True-(nEl,nDof,nDof)", detail="full((nEl, nDofPerEl, nDofPerEl), True)",
-                   bad_detail="the Hessian mask does not start as an all-True (nElements, nDofPerElement, nDofPerElement) array")
-    # coordinate builder
-    sc_ = hc.params()[0]
-    connc = hc.params()[1]
-    cfgc = cfg_of(hc)
-    loops = [n for n in cfgc.nodes if n.kind == "for"]
-    for lp in loops:
-        ctx.decide(rule, src(lp.ast.iter) == f"enumerate({connc})", hc, lp.ast, construct="coords:iterates-given-connectivity", detail=src(lp.ast.iter),
-                   bad_detail=f"coordinate builder iterates `{src(lp.ast.iter)}`, not the connectivity it was given")
-    if len(loops) != 2:
-        ctx.undecided(rule, hc, None, construct="coords:loops", detail=f"{len(loops)} loops (count pass + fill pass expected)")
-        return
-    jumps = [n for n in cfgc.nodes if n.kind == "stmt" and isinstance(n.ast, (ast.Continue, ast.Break)) and n.loops]
-    conds = [n for n in cfgc.nodes if n.kind == "cond" and n.loops]
-    ctx.decide(rule, not jumps and not conds, hc, (jumps or conds)[0].ast if (jumps or conds) else None, construct="coords:every-element-processed",
-               detail="coordinate loops are unconditional", bad_detail="the Hessian coordinate loops skip or special-case elements: coordinates and mask would disagree")
-    # role-based search in loop bodies
-    def find_assign(pred):
-        return [n for n in cfgc.nodes if n.kind == "stmt" and isinstance(n.ast, (ast.Assign, ast.AugAssign)) and n.loops and pred(n)]
-    # count of unknowns per element from isUnknown of the element's nodes
-    cnt = find_assign(lambda n: isinstance(n.ast, ast.Assign) and isinstance(n.ast.targets[0], ast.Subscript) and "sum" in src(n.ast.value))
-    okc = len(cnt) == 1 and same(expand(cfgc, cnt[0], cnt[0].ast.value), f"onp.sum({sc_}.isUnknown[{loops[0].ast.target.elts[1].id}, :].ravel())")
-    ctx.decide(rule, okc, hc, cnt[0].ast if cnt else None, construct="coords:unknowns-per-element-from-isUnknown",
-               detail="nElUnknowns[e] = sum(isUnknown[eNodes,:])", bad_detail="the number of unknowns per element is not counted from isUnknown of the element's nodes")
-    # element unknown ids: dofToUnknown[ ids[eNodes,:][ isUnknown[eNodes,:] ] ]
-    nodes2 = loops[1].ast.target.elts[1].id
-    eu = find_assign(lambda n: isinstance(n.ast, ast.Assign) and "dofToUnknown" in src(n.ast.value))
-    oke = len(eu) == 1 and same(expand(cfgc, eu[0], eu[0].ast.value), f"{sc_}.dofToUnknown[{sc_}.ids[{nodes2}, :][{sc_}.isUnknown[{nodes2}, :]]]")
-    ctx.decide(rule, oke, hc, eu[0].ast if eu else None, construct="coords:element-unknown-ids-through-map",
-               detail="elUnknowns = dofToUnknown[ids[eNodes,:][isUnknown[eNodes,:]]]",
-               bad_detail=f"element unknown ids are `{src(expand(cfgc, eu[0], eu[0].ast.value)) if eu else '?'}`; expected the map applied to the ids of the "
-                          f"element's nodes selected by isUnknown")
-    # row/col stores: tile and its transpose, over a range of n^2 entries advancing by n^2
-    st = find_assign(lambda n: isinstance(n.ast, ast.Assign) and isinstance(n.ast.targets[0], ast.Subscript) and isinstance(n.ast.targets[0].slice, ast.Slice))
-    vals = sorted(src(n.ast.value) for n in st)
-    okt = False
-    if len(st) == 2:
-        a, b = [n.ast.value for n in st]
-        ta, tb = src(a), src(b)
-        base = None
-        for t in (ta, tb):
-            if t.endswith(".ravel()") and not t.endswith(".T.ravel()"):
-                base = t[: -len(".ravel()")]
-        okt = base is not None and {ta, tb} == {base + ".ravel()", base + ".T.ravel()"}
-        if okt:
-            bd = single_def(cfgc, st[0], base)
-            okt = bd is not None and isinstance(def_value(bd, base), ast.Call) and (dotted(def_value(bd, base).func) or "").endswith("tile")
-        rng = {src(n.ast.targets[0].slice) for n in st}
-        okt = okt and len(rng) == 1
-        tgt = {src(n.ast.targets[0].value) for n in st}
-        okt = okt and len(tgt) == 2
-    ctx.decide(rule, okt, hc, st[0].ast if st else None, construct="coords:tile-and-transpose-over-same-range",
-               detail=f"{vals}", bad_detail=f"row/column coordinates are filled with {vals}; expected a tile of the element unknown ids and its transpose over the same range")
-    adv = find_assign(lambda n: isinstance(n.ast, ast.AugAssign) and isinstance(n.ast.op, ast.Add) and "square" in src(n.ast.value))
-    okn = len(adv) == 2 and len({src(n.ast.value).replace(loops[0].ast.target.elts[0].id, "e").replace(loops[1].ast.target.elts[0].id, "e") for n in adv}) == 1
-    ctx.decide(rule, okn, hc, adv[0].ast if adv else None, construct="coords:n^2-entries-per-element",
-               detail="both passes advance by (unknowns per element)^2", bad_detail="the counting pass and the filling pass do not advance by the same (unknowns per element)^2")
+        ctx.refuted(rule, init, None, construct="coords:tile-and-transpose-of-element-unknowns",
+                    detail=f"HessRowCoords = `{pretty(r, 300)}`, HessColCoords = `{pretty(c, 300)}`; the property needs, per element, the unknown numbers "
+                           f"`{pretty(u, 200)}` tiled n = {pretty(n)} times and the transpose of that tile, concatenated over all elements "
+                           f"(so that entry (i, j) of each element's unknown-by-unknown block is addressed exactly once)")
+    want_mask = ("tab", it, outer_and(uflag, uflag))
+    _compare(ctx, rule, init, "mask:unknown-by-unknown-block-of-every-element", _get(st, "hessian_bc_mask"), want_mask,
+             "mask[e] = outer_and(unknown flags of element e, same flags) for every element of the connectivity the coordinates are built from",
+             "self.hessian_bc_mask (it must keep exactly the entries whose row and column dofs are both unconstrained, for every element)")
     # assembler
     asm = ctx.need(f"{SA}:assemble_sparse_stiffness_matrix")
-    cfga = cfg_of(asm)
-    dm = asm.params()[2]
-    kv = asm.params()[0]
-    coo = [c for c in calls_in(asm) if (dotted(c.func) or "").endswith("coo_matrix")]
-    ok = False
-    shown = "?"
-    if len(coo) == 1:
-        c = coo[0]
-        node = [n for n in cfga.nodes if n.ast is not None and any(x is c for x in ast.walk(n.ast))][0]
-        a0 = c.args[0]
-        shp = [k.value for k in c.keywords if k.arg == "shape"]
-        shown = src(c)[:140]
-        if isinstance(a0, ast.Tuple) and len(a0.elts) == 2 and isinstance(a0.elts[1], ast.Tuple) and shp:
-            data, (rws, cls_) = a0.elts[0], a0.elts[1].elts
-            okd = same(data, f"{kv}[{dm}.hessian_bc_mask]")
-            okc2 = {src(rws), src(cls_)} == {f"{dm}.HessRowCoords", f"{dm}.HessColCoords"}
-            se = expand(cfga, node, shp[0])
-            oks = same(se, f"({dm}.unknownIndices.size, {dm}.unknownIndices.size)")
-            ok = okd and okc2 and oks
-    ctx.decide(rule, ok, asm, coo[0] if coo else None, construct="assembler:masked-values-with-coordinates",
-               detail="coo_matrix((kValues[mask], (rows, cols)), shape=(nUnknowns, nUnknowns))",
-               bad_detail=f"assembler builds `{shown}`; expected kValues[hessian_bc_mask] paired with HessRowCoords/HessColCoords in an nUnknowns x nUnknowns matrix")
-    # kValues reshaped to (nElements, nDofPerElement, nDofPerElement) before masking
-    rs = [n for n in cfga.nodes if n.kind == "stmt" and isinstance(n.ast, ast.Assign) and isinstance(n.ast.targets[0], ast.Name) and n.ast.targets[0].id == kv]
-    ok = len(rs) == 1 and isinstance(rs[0].ast.value, ast.Call) and isinstance(rs[0].ast.value.func, ast.Attribute) and rs[0].ast.value.func.attr == "reshape"
-    if ok:
-        shp = expand(cfga, rs[0], rs[0].ast.value.args[0])
-        conns_ = asm.params()[1]
-        ok = isinstance(shp, ast.Tuple) and len(shp.elts) == 3 and same(shp.elts[1], shp.elts[2])
-    ctx.decide(rule, ok, asm, rs[0].ast if rs else None, construct="assembler:values-reshaped-like-mask",
-               detail="kValues.reshape((nElements, nDofPerElement, nDofPerElement))", bad_detail="kValues are not reshaped to (nElements, nDofPerElement, nDofPerElement) before masking")
+    ps = asm.params()
+    if len(ps) != 3:
+        raise Incomplete(f"assemble_sparse_stiffness_matrix takes {ps}")
+    kv = ("param", "kValues")
+    nel, npe = da.ShapeOf(st.conns).dim(0), da.ShapeOf(st.conns).dim(1)
+    da.HINTS[kv] = ((nel, npe, st.D, npe, st.D), "float")
+    st.I.calls.clear()
+    try:
+        st.I.call_scope(asm, [kv, st.conns, st.obj], {})
+    except (da.Unsupported, RecursionError) as ex:
+        ctx.undecided(rule, asm, None, construct="assembler", detail=f"cannot interpret the assembler: {ex}")
+        return
+    coo = [c_ for c_ in st.I.calls if c_[0] == "coo_matrix"]
+    if len(coo) != 1:
+        ctx.undecided(rule, asm, None, construct="assembler", detail=f"{len(coo)} coo_matrix constructions found")
+        return
+    _, args, kw = coo[0]
+    a0 = args[0] if args else kw.get("arg1")
+    shp = kw.get("shape", args[1] if len(args) > 1 else None)
+    if not (isinstance(a0, Tup) and len(a0) == 2 and isinstance(a0[1], Tup) and len(a0[1]) == 2):
+        ctx.undecided(rule, asm, None, construct="assembler", detail="coo_matrix is not built from (data, (rows, cols))")
+        return
+    data, (rws, cls_) = a0[0], a0[1]
+    d = npe * st.D
+    _compare(ctx, rule, asm, "assembler:masked-values", data, sel(da.reshape(kv, (nel, d, d)), _get(st, "hessian_bc_mask") or want_mask),
+             "kValues reshaped to (nEl, nDofPerEl, nDofPerEl) and selected by hessian_bc_mask", "the data array of the sparse matrix")
+    okc = r is not None and c is not None and {(rws, cls_)} <= {(r, c), (c, r)}
+    if okc:
+        ctx.proved(rule, asm, None, construct="assembler:coordinates", detail="(HessRowCoords, HessColCoords) of the dof manager")
+    elif da.has_unknown(rws) or da.has_unknown(cls_):
+        ctx.undecided(rule, asm, None, construct="assembler:coordinates", detail="coordinates of the sparse matrix not fully modelled")
+    else:
+        ctx.refuted(rule, asm, None, construct="assembler:coordinates",
+                    detail=f"the sparse matrix is built with coordinates `{pretty(rws, 200)}` / `{pretty(cls_, 200)}`, not with the dof manager's HessRowCoords / HessColCoords")
+    if shp is None:
+        ctx.refuted(rule, asm, None, construct="assembler:shape-unknowns-by-unknowns",
+                    detail="coo_matrix is built without shape=: the matrix size is then inferred from the largest coordinate, which is wrong (or fails) when the "
+                           "highest-numbered unknowns belong to no element entry or there are no unknowns at all; the property needs an nUnknowns x nUnknowns matrix")
+    else:
+        _compare(ctx, rule, asm, "assembler:shape-unknowns-by-unknowns", shp, Tup((st.nU, st.nU)), "shape = (nUnknowns, nUnknowns)", "the shape of the sparse matrix")
+
+
+
+
+def _coords_by_lists(src_text):
+    """single-pass coordinate builder with Python lists and concatenate (behaviour preserving)"""
+    a = src_text.find("    def _make_hessian_coordinates(self, conns):")
+    b = src_text.find("    def _make_hessian_bc_mask(self, conns):")
+    if a < 0 or b < 0:
+        return None
+    new = (
+        "    def _make_hessian_coordinates(self, conns):\n"
+        "        rowParts = []\n"
+        "        colParts = []\n"
+        "        for eNodes in conns:\n"
+        "            flags = self.isUnknown[eNodes,:]\n"
+        "            unknowns = self.dofToUnknown[self.ids[eNodes,:]][flags]\n"
+        "            block = onp.tile(unknowns, (unknowns.size, 1))\n"
+        "            rowParts.append(block.ravel())\n"
+        "            colParts.append(block.T.ravel())\n"
+        "        return onp.concatenate(rowParts), onp.concatenate(colParts)\n\n\n")
+    return src_text[:a] + new + src_text[b:]
 
 
 def variants(repo):
@@ -429,6 +319,26 @@ def variants(repo):
         Variant("mask skips fully constrained elements", F, sub("            eFlag = self.isBc[eNodes,:].ravel()\n", "            eFlag = self.isBc[eNodes,:].ravel()\n            if onp.all(eFlag): continue\n"), "O6/T6-hessian-coordinates-and-mask"),
         Variant("assembler shape", S, sub("shape = (nUnknowns, nUnknowns))", "shape = (nUnknowns+1, nUnknowns+1))"), "O6/T6-hessian-coordinates-and-mask"),
         Variant("assembler unmasked", S, sub("kValues[dofManager.hessian_bc_mask]", "kValues.ravel()"), "O6/T6-hessian-coordinates-and-mask"),
+        # further breaking edits
+        Variant("slice through ids without the map", F, sub("        j = self.dofToUnknown.reshape(self.fieldShape)[dofIndexSlice]", "        j = self.ids[dofIndexSlice]"), "O4-O5/T5-scatter-gather-slice"),
+        Variant("fill pass selects constrained dofs", F, sub("            elUnknownFlags = self.isUnknown[eNodes,:]\n            elUnknowns", "            elUnknownFlags = self.isBc[eNodes,:]\n            elUnknowns"), "O6/T6-hessian-coordinates-and-mask"),
+        Variant("map numbers unknowns by their dof id", F, sub("        dofToUnknown[self.unknownIndices] = onp.arange(self.unknownIndices.size)", "        dofToUnknown[self.unknownIndices] = self.unknownIndices"), "O1-O3/T5-masks-ids-map"),
+        Variant("mask from truncated connectivity", F, sub("self._make_hessian_bc_mask(onp.array(functionSpace.mesh.conns))", "self._make_hessian_bc_mask(onp.array(functionSpace.mesh.conns)[:-1])"), "O6/T6-hessian-coordinates-and-mask"),
+        Variant("mask clears rows twice", F, sub("            hessian_bc_mask[e,:,eFlag] = False\n", "            hessian_bc_mask[e,eFlag,:] = False\n"), "O6/T6-hessian-coordinates-and-mask"),
+        Variant("bcIndices from flat positions of unknowns", F, sub("        self.bcIndices = self.ids[self.isBc]", "        self.bcIndices = self.ids[~self.isUnknown == False]"), "O1-O3/T5-masks-ids-map"),
+        # further behaviour-preserving rewrites (must stay silent)
+        Variant("unknown mask by comparison", F, sub("        self.isUnknown = ~self.isBc", "        self.isUnknown = self.isBc == False"), None),
+        Variant("create_field scatters unknowns first", F, sub("        U = np.zeros(self.isBc.shape).at[self.isBc].set(Ubc)\n        return U.at[self.isUnknown].set(Uu)",
+                                                                 "        U = np.zeros(self.fieldShape)\n        U = U.at[self.isUnknown].set(Uu)\n        return U.at[self.isBc].set(Ubc)"), None),
+        Variant("map filled through the flat unknown mask", F, sub("        dofToUnknown[self.unknownIndices] = onp.arange(self.unknownIndices.size)",
+                                                                    "        dofToUnknown[self.isUnknown.ravel()] = onp.arange(len(self.unknownIndices))"), None),
+        Variant("sizes from the index arrays", F, sub("        return np.sum(self.isUnknown).item() # item() method casts to Python int", "        return self.unknownIndices.size"), None),
+        Variant("mask loop over range", F, sub_in_func("DofManager._make_hessian_bc_mask", "        for e, eNodes in enumerate(conns):\n", "        for e in range(conns.shape[0]):\n            eNodes = conns[e]\n"), None),
+        Variant("unknown values through flat ids", F, sub("        return U[self.isUnknown]", "        return U.ravel()[self.unknownIndices]"), None),
+        Variant("coordinates by list concatenation", F, sub(
+            "        rowCoords = onp.zeros(nHessianEntries, dtype=int)\n        colCoords = rowCoords.copy()\n        rangeBegin = 0\n        for e,eNodes in enumerate(conns):\n",
+            "        rowParts = []\n        colParts = []\n        for e,eNodes in enumerate(conns):\n") , None) if False else
+        Variant("coordinates by list concatenation", F, _coords_by_lists, None),
         Variant("reformat FunctionSpace", F, reformat(), None),
         Variant("alpha-rename assembler", S, alpha_rename("assemble_sparse_stiffness_matrix"), None),
     ]
